@@ -1,6 +1,8 @@
 import GmQuic.Model.Stream
 import GmQuic.Lemmas.Stream
 import GmQuic.Lemmas.StreamRun
+import GmQuic.Lemmas.StreamMono
+import GmQuic.Lemmas.StreamDone
 /-!
 C01 — stream data is delivered reliably, in order, exactly once.
 
@@ -19,6 +21,15 @@ def after (sw rw : Nat) (ops : List Op) : Stream := (Stream.init sw rw).run ops
 
 theorem after_inv (sw rw : Nat) (h : sw ≤ rw) (ops : List Op) : Inv (after sw rw ops) :=
   inv_run (inv_init sw rw h) ops
+
+/-- Non-vacuity witness: 8 bytes in two frames, the first one lost and retransmitted in two pieces, the second
+delivered first, a duplicate delivery, FIN-only frame, acks in arbitrary order, reads of different sizes up to EOF. -/
+def exOps : List Op :=
+  [.write [1, 2, 3, 4, 5, 6, 7, 8], .pick 0 3, .pick 3 5, .shutdown, .deliver 1, .lose 0, .pick 0 2, .pick 2 1,
+   .pick 8 0, .deliver 4, .deliver 3, .deliver 3, .read 2, .deliver 2, .read 5, .ack 1, .ack 4, .ack 3, .ack 2,
+   .read 100, .read 100]
+
+example : (5 : Nat) ≤ 7 ∧ (after 5 7 []).snd.maxData = 5 := by decide
 
 /-! ### 1. exactly the written bytes, in order, each once -/
 
@@ -70,6 +81,11 @@ theorem eof_only_at_end (sw rw : Nat) (h : sw ≤ rw) (ops : List Op) :
   refine ⟨x1, x2, ?_⟩
   rw [hi.b2, x2, List.take_length]
 
+-- non-vacuity: the witness history reaches EOF with all 8 bytes, through a loss, a re-split and a duplicate
+example : (after 20 20 exOps).eof = true ∧ (after 20 20 exOps).out = [1, 2, 3, 4, 5, 6, 7, 8] ∧
+    (after 20 20 exOps).emitted.length = 5 ∧ (after 20 20 exOps).snd.st = .dataRcvd ∧
+    (after 20 20 exOps).rcv.st = .dataRead := by decide
+
 /-! ### 3. the receiver never rejects what this sender emits; no `unreachable!` is reached -/
 
 /-- ∀ hist: no frame emitted by the sender (STREAM with or without FIN, RESET_STREAM) is answered with a
@@ -80,5 +96,73 @@ theorem no_spurious_error (sw rw : Nat) (h : sw ≤ rw) (ops : List Op) :
     (after sw rw ops).rcv.panicked = false := by
   have hi := after_inv sw rw h ops
   exact ⟨hi.b8, hi.a8, hi.b7.2⟩
+
+/-! ### 4. the state machines only move along the RFC 9000 §3 diagrams -/
+
+/-- ∀ hist, ∀ continuation: the sending part only moves forward along
+`Ready → Send → DataSent → DataRecvd` / `Ready|Send|DataSent → ResetSent → ResetRecvd` (RFC 9000 §3.1);
+in particular it never leaves a terminal state and never goes back to accepting writes after the FIN. -/
+theorem sender_monotone (sw rw : Nat) (ops more : List Op) :
+    (after sw rw ops).snd.st.reach (after sw rw (ops ++ more)).snd.st = true := by
+  unfold after; rw [run_append]; exact run_sreach _ _
+
+/-- ∀ hist, ∀ continuation: the receiving part only moves forward along
+`Recv → SizeKnown → DataRecvd → DataRead` / `Recv|SizeKnown → ResetRecvd → ResetRead` (RFC 9000 §3.2). -/
+theorem recver_monotone (sw rw : Nat) (ops more : List Op) :
+    (after sw rw ops).rcv.st.reach (after sw rw (ops ++ more)).rcv.st = true := by
+  unfold after; rw [run_append]; exact run_rreach _ _
+
+/-! ### 5. flush / shutdown complete exactly when everything is acknowledged -/
+
+/-- ∀ hist: `poll_shutdown` completes iff the sender is in `DataRcvd`, and the sender is in `DataRcvd` only when
+every written byte AND the FIN have been acknowledged; while it is in `DataSent` (FIN emitted) they have not all
+been — so, once the FIN is out, shutdown completes exactly when data + FIN are acknowledged. -/
+theorem shutdown_iff_all_acked (sw rw : Nat) (ops : List Op) :
+    let s := (after sw rw ops).snd
+    (s.pollShutdown.2 = "ready" ↔ s.err = false ∧ s.st = .dataRcvd) ∧
+    (s.st = .dataRcvd → s.allAcked ∧ s.fin = .rcvd) ∧
+    (s.st = .dataSent → ¬ (s.allAcked ∧ s.fin = .rcvd)) := by
+  have hd := done_run (Stream.init sw rw) ops (done_init sw rw)
+  refine ⟨?_, hd.1, hd.2⟩
+  unfold Sender.pollShutdown
+  cases (after sw rw ops).snd.err <;> cases (after sw rw ops).snd.st <;> simp
+
+/-- ∀ hist: `poll_flush` completes iff (no FIN emitted yet and every written byte is acknowledged) or the sender
+is in `DataRcvd`; in both cases every written byte has been acknowledged. -/
+theorem flush_iff_all_acked (sw rw : Nat) (ops : List Op) :
+    let s := (after sw rw ops).snd
+    (s.pollFlush = "ready" ↔
+      s.err = false ∧ (((s.st = .ready ∨ s.st = .sending) ∧ s.allAcked) ∨ s.st = .dataRcvd)) ∧
+    (s.pollFlush = "ready" → s.allAcked) := by
+  have hd := done_run (Stream.init sw rw) ops (done_init sw rw)
+  have key : (after sw rw ops).snd.pollFlush = "ready" ↔
+      (after sw rw ops).snd.err = false ∧ ((((after sw rw ops).snd.st = .ready ∨ (after sw rw ops).snd.st = .sending) ∧
+        (after sw rw ops).snd.allAcked) ∨ (after sw rw ops).snd.st = .dataRcvd) := by
+    unfold Sender.pollFlush
+    cases (after sw rw ops).snd.err <;> cases (after sw rw ops).snd.st <;> simp
+  refine ⟨key, fun hr => ?_⟩
+  rcases (key.mp hr).2 with ⟨_, h2⟩ | h2
+  · exact h2
+  · exact (hd.1 h2).1
+
+/-! ### 6. nothing that must be (re)sent is left behind -/
+
+/-- When the model says the sender has nothing it must send (`somePick = none`; the correspondence run checks
+that the real `try_load_data_into` returns nothing ONLY then), no written byte inside the window is unsent or
+marked lost, and no FIN is due. -/
+theorem idle_means_nothing_pending (s : Sender) (hl : s.live = true) (h : s.somePick = none) :
+    (∀ x, x < s.written.length → x < s.maxData → (s.status x).pickable = false) ∧ ¬ s.finDue := by
+  unfold Sender.somePick at h
+  simp only [hl, if_true] at h
+  split at h
+  · cases h
+  · rename_i hf
+    refine ⟨fun x h1 h2 => ?_, fun hd => by simp [hd] at h⟩
+    have := List.find?_eq_none.mp hf x (by simp; omega)
+    simpa using this
+
+-- non-vacuity: after the witness history minus the final acks the sender is live, idle and has nothing pending
+example : (after 20 20 (exOps.take 15)).snd.live = true ∧ (after 20 20 (exOps.take 15)).snd.somePick = none ∧
+    (after 20 20 (exOps.take 6)).snd.somePick = some (0, 1) := by decide
 
 end GmQuic.Stream
